@@ -126,6 +126,15 @@ def c10_jobs(rng, quick):
         jobs.append(dict(op="addchecksum", content=onedim.U("7" * n)))
         add("codabar", "Encode", (), "A" + "1" * n + "B")
         add("codabar", "Encode", (), "1" * n)
+    # QR Numeric / Auto: every position of digit strings of length 1..9 replaced by a character that a lenient number parser swallows
+    for n in range(1, 10):
+        for pos in range(n):
+            for ch in "+-_ .eExX,":
+                if quick and (n * 7 + pos * 3 + ord(ch)) % 3 != rng.randrange(3) and n > 4:
+                    continue
+                base = "".join(rng.choice("0123456789") for _ in range(n))
+                for mode in (1, 0):
+                    add("qr", "Encode", (rng.randrange(4), mode), base[:pos] + ch + base[pos + 1:])
     return jobs
 
 
